@@ -16,6 +16,31 @@ class SiteFailure(Exception):
     pass
 
 
+# what a failing layer raises varies: handlers reject with ValueError, lookups fail with KeyError / AttributeError, conversions with
+# TypeError / UnicodeError; whatever it is, it must reach the caller
+class SiteValueError(SiteFailure, ValueError):
+    pass
+
+
+class SiteKeyError(SiteFailure, KeyError):
+    pass
+
+
+class SiteAttributeError(SiteFailure, AttributeError):
+    pass
+
+
+class SiteTypeError(SiteFailure, TypeError):
+    pass
+
+
+class SiteRuntimeError(SiteFailure, RuntimeError):
+    pass
+
+
+FAILURES = (SiteFailure, SiteValueError, SiteKeyError, SiteAttributeError, SiteTypeError, SiteRuntimeError)
+
+
 def sites(acc):
     """[(label, layer object)] of an account's stack, sublayers of parallel layers included."""
     out = []
@@ -37,7 +62,7 @@ def sites(acc):
 
 class Arm(object):
     """Fails the first call of layer.send / layer.receive after arming; restores the method afterwards."""
-    def __init__(self, layer, direction):
+    def __init__(self, layer, direction, exc=SiteFailure):
         self.layer, self.direction = layer, direction
         self.hit = False
         self.orig = getattr(layer, direction)
@@ -46,7 +71,7 @@ class Arm(object):
         def failing(*a, **k):
             if not arm.hit:
                 arm.hit = True
-                raise SiteFailure("injected failure in %s.%s" % (type(layer).__name__, direction))
+                raise exc("injected failure in %s.%s" % (type(layer).__name__, direction))
             return arm.orig(*a, **k)
         setattr(layer, direction, failing)
 
@@ -76,7 +101,7 @@ def in_thread(fn, name):
 POSITIONS = ("outgoing-message", "incoming-message", "outgoing-receipt", "incoming-receipt", "incoming-key-result")
 
 
-def one_case(roots, group, position, site_label, direction, make_text):
+def one_case(roots, group, position, site_label, direction, make_text, exc=SiteFailure):
     """Returns (status, detail): status in reached-ok | not-reached | violation:<what>."""
     n = 3 if group else 2
     w = e2e.World(roots, n, group=group)
@@ -109,7 +134,7 @@ def one_case(roots, group, position, site_label, direction, make_text):
 
         def failing_step():
             if position == "outgoing-message":
-                arm = state["arm"] = Arm(layer, direction)
+                arm = state["arm"] = Arm(layer, direction, exc)
                 try:
                     state["mid"] = submit("a", dest)
                 finally:
@@ -122,7 +147,7 @@ def one_case(roots, group, position, site_label, direction, make_text):
                 if not (w.server.outq["a"] and w.head("a", 1)["k"] == "ctl" and w.head("a", 1)["f"] == 1):
                     state["norcpt"] = True
                     return
-                arm = state["arm"] = Arm(layer, direction)
+                arm = state["arm"] = Arm(layer, direction, exc)
                 try:
                     w.do_deliver("a", None, 1)
                 finally:
@@ -130,7 +155,7 @@ def one_case(roots, group, position, site_label, direction, make_text):
             elif position in ("incoming-message", "outgoing-receipt"):
                 # the message is the stanza queued for b by that step (an ack for a precedes nothing of b's)
                 j = next(i for i in range(1, len(w.server.outq["b"]) + 1) if w.head("b", i)["k"] == "msg")
-                arm = state["arm"] = Arm(layer, direction)
+                arm = state["arm"] = Arm(layer, direction, exc)
                 try:
                     w.do_deliver("b", None, j)
                 finally:
@@ -145,7 +170,7 @@ def one_case(roots, group, position, site_label, direction, make_text):
                     kind, name = en[0]
                     (w.do_process if kind == "process" else w.do_deliver)(name)
                 j = next(i for i in range(1, len(w.server.outq["a"]) + 1) if w.head("a", i)["k"] == "rcpt")
-                arm = state["arm"] = Arm(layer, direction)
+                arm = state["arm"] = Arm(layer, direction, exc)
                 try:
                     w.do_deliver("a", None, j)
                 finally:
@@ -223,8 +248,13 @@ def sweep(r, rng, thorough, text_entity):
                 d = "send" if pos.startswith("outgoing") else "receive"
                 for lab in labels:
                     combos.append((group, pos, lab, d))
-        for (group, pos, lab, d) in combos:
-            status, detail = one_case(roots, group, pos, lab, d, text_entity)
+        for ci, (group, pos, lab, d) in enumerate(combos):
+            exc = FAILURES[(ci + core.seed()) % len(FAILURES)] if not thorough else None
+            for exc in ([exc] if exc is not None else FAILURES):
+                status, detail = one_case(roots, group, pos, lab, d, text_entity, exc)
+                if status != "reached-ok":
+                    break
+            detail = ("%s [raising %s]" % (detail, exc.__name__)) if detail else detail
             if status == "not-reached":
                 skipped += 1
                 continue
